@@ -83,6 +83,8 @@ def FaultSpent (s : State) : Prop := s.fault = 0 ∨ s.fault ≤ s.calls
 
 @[simp] theorem good_unbindChecksUID : Facts.good.unbindChecksUID = true := rfl
 @[simp] theorem good_bindChecksUID : Facts.good.bindChecksUID = true := rfl
+@[simp] theorem good_bindChecksListerUID : Facts.good.bindChecksListerUID = true := rfl
+@[simp] theorem good_bindUidGuardCoversWholeKey : Facts.good.bindUidGuardCoversWholeKey = true := rfl
 @[simp] theorem good_releaseRechecks : Facts.good.releaseRechecks = true := rfl
 @[simp] theorem good_resyncRechecks : Facts.good.resyncRechecks = true := rfl
 @[simp] theorem good_apiDoubleCheck : Facts.good.apiDoubleCheck = true := rfl
